@@ -19,3 +19,6 @@ def run(ctx):
     pathrules.B3(ctx)
     pathrules.B4(ctx)
     modelrules.B5(ctx)
+    # a race found while exploration is paused still moves the *earlier*, explored decision: the DPOR scan is unconditional
+    from . import g_dpor
+    g_dpor.T4(ctx)
